@@ -298,6 +298,13 @@ fn w_faults(ctx: &mut Ctx) {
         }
     }
     let stride = if ctx.flavour == "miri" { 37 } else { 1 };
+    // the settings each valid file carries, as the loader returns them
+    let mut orig_settings: std::collections::HashMap<usize, serde_json::Value> = Default::default();
+    for (fi, bytes) in files.iter().enumerate() {
+        if let Ok(Ok(solver)) = load_bytes(bytes, None) {
+            orig_settings.insert(fi, problem::settings_json(&solver.settings));
+        }
+    }
     for case in ctx.cases(wl, units.len() as u64) {
         if ctx.out_of_budget() {
             continue;
@@ -374,7 +381,15 @@ fn w_faults(ctx: &mut Ctx) {
                             ctx.violation("accepted_file_that_is_not_valid_json", "accepted_file_that_is_not_valid_json", wl, case, json!({"file_index": fi, "offset": off, "edit": kind, "corrupted_file": String::from_utf8_lossy(&data)}));
                         }
                         // an accepted file must give a well-formed solver: a short solve must not panic either
-                        if rng.bool(0.02) {
+                        // (only when the corruption left the stored settings alone: a corrupted but still numeric
+                        // setting - a backtracking factor of -1 or 1e308, say - is a valid file with settings outside
+                        // their documented ranges, and what a solve does with those is not this property's subject;
+                        // seen: an endless backtracking loop with linesearch_backtrack_step >= 1)
+                        let settings_intact = orig_settings.get(&fi).map_or(false, |o| *o == problem::settings_json(&solver.settings));
+                        if !settings_intact {
+                            ctx.bump("fault_outcome_ok_with_changed_settings_(no_solve_probe)");
+                        }
+                        if settings_intact && rng.bool(0.02) {
                             solver.settings.max_iter = 3;
                             solver.settings.verbose = false;
                             if let Err(panic) = problem::solve_observed(&mut solver) {
